@@ -172,6 +172,19 @@ def r2_slots(ctx, sgn, qfn):
                         coding = x[1]
         changed = []
         for (fn, h, key), init in lev.items():
+            if fn == sgn and key[0] == "F" and is_agg(init) and init[1] == "tuple":
+                # the slots are the components of a try_fold accumulator `(gzip, identity, *)`: each starts as None, one turn
+                # returns the new tuple
+                accv = ("loopvar", sgn, h, key, 0)
+                for name, comp in init[4]:
+                    if not (is_agg(comp) and comp[2] == "std::option::Option"):
+                        continue
+                    skey = ("F", 0, name)
+                    entry[skey] = comp
+                    new = agg_get(o.value, name) if is_agg(o.value) else None
+                    if new != ("field", accv, name):
+                        changed.append((skey, new))
+                continue
             if fn != sgn or key[0] != "L" or key[2]:
                 continue
             ty = ctx.facts.bodies[sgn]["locals"][key[1]]["s"]
@@ -307,6 +320,9 @@ def r3_decision(ctx, sgn, outs, slots, header):
         def extra(ev, t, env=env):
             if t[0] == "loopvar" and t[3] in keyname:
                 v = env[keyname[t[3]]]
+                return Opt(v is not None, v)
+            if t[0] == "field" and isinstance(t[1], tuple) and t[1][0] == "loopvar" and t[1][3][0] == "F" and ("F", 0, t[2]) in keyname:
+                v = env[keyname[("F", 0, t[2])]]
                 return Opt(v is not None, v)
             return NotImplemented
 
